@@ -155,7 +155,15 @@ def check(prog, run):
         takes = [x for x in sym.walk(e) if isinstance(x, tuple) and x and x[0] == "call" and x[1] == "std::mem::take"]
         if takes:
             arg = takes[0][2][0]
-            took = arg[0] == "refplace" and arg[1] == "arg1." + q
+            whole = e
+            while whole[0] == "ref" or (whole[0] == "call" and whole[1].split("::")[-1] in ("deref", "as_slice", "as_ref", "borrow") and whole[2]):
+                whole = whole[1] if whole[0] == "ref" else whole[2][0]
+            once = t.get("target") is None or bb not in mir.reachable(fb, [t["target"]])
+            took = arg[0] == "refplace" and arg[1] == "arg1." + q and whole is takes[0] and once
+            if arg[0] == "refplace" and arg[1] == "arg1." + q and not (whole is takes[0] and once):
+                run.bad("R1", "builder-gets-taken-queue", "the segment builder is handed %s%s: one flush must describe all taken samples in exactly one movie fragment" %
+                        ("a part of the taken queue (%s)" % sym.show(e)[:100] if whole is not takes[0] else "the taken queue", "" if once else ", and it is called in a loop"), mir.loc_of(t))
+                return
             run.check(took, "R1", "builder-gets-taken-queue", "%s(&mem::take(&mut self.%s), ..)" % (mir.norm(name).split("::")[-1], q),
                       "the segment builder is not handed the whole taken queue: %s" % sym.show(e), mir.loc_of(t))
             run.extra["segment_builder"] = mir.norm(name)
